@@ -7,8 +7,8 @@
    [proto_error_reason] record which DISCONNECT reason code MQTT 5 assigns to each cause. *)
 From Coq Require Import List NArith String.
 Import ListNotations.
-Open Scope N_scope.
-Open Scope string_scope.
+Local Open Scope N_scope.
+Local Open Scope string_scope.
 
 Definition spec_packet_types : list (string * N) := [
   ("AUTH", 240);
